@@ -545,6 +545,39 @@ func runProperty(prop, tier string, seed uint64) int {
 		passes = append(passes, runPass(b, prop, seed+uint64(i)*7919, share, nW, race))
 	}
 
+	// cross-toolchain determinism: the same seeds give the same run hashes on
+	// both toolchains (recorded in the evidence; a difference is printed, it is
+	// not by itself a violation or a harness fault)
+	if len(builds) > 1 {
+		same := true
+		var diffs []string
+		for w := 0; w < 4; w++ {
+			var hs []string
+			for _, b := range builds {
+				bin := b.WorkerNR
+				if race {
+					bin = b.Worker
+				}
+				o := runWorker(bin, []string{"run", "-prop", prop, "-seed", fmt.Sprint(seed), "-worker", fmt.Sprint(2000 + w), "-runs", "300", "-maxviol", "1000000"}, 4, filepath.Join(b.Dir, fmt.Sprintf("race-x%d", w)))
+				h := "no-output"
+				if o.stats != nil {
+					h, _ = o.stats["run_hash"].(string)
+				}
+				hs = append(hs, h)
+			}
+			if hs[0] != hs[1] {
+				same = false
+				diffs = append(diffs, fmt.Sprintf("seed %d: %s vs %s", w, hs[0], hs[1]))
+			}
+		}
+		det["cross_toolchain_identical"] = same
+		det["cross_toolchain_seeds"] = 4
+		if !same {
+			det["cross_toolchain_diffs"] = diffs
+			fmt.Printf("note: run hashes differ between toolchains: %v\n", diffs)
+		}
+	}
+
 	// ---- aggregate
 	agg := map[string]float64{}
 	var totalRuns, totalOps, nonTrivial, coldRuns float64
